@@ -1154,7 +1154,14 @@ class SyncedStackedTransforms(StackedTransforms):
 
     def push(self, captures):
         super().push(captures)
-        self._apply(self.target)
+        try:
+            self._apply(self.target)
+        except BaseException:
+            # The new variant could not be installed (e.g. the function
+            # cannot be transformed): undo the counts so that the function
+            # is not left half-instrumented.
+            super().pop(captures)
+            raise
 
     def pop(self, captures):
         super().pop(captures)
